@@ -86,7 +86,8 @@ def run_speaker(run, invs, kf_invs=None, design=design_mech, policy=False):
     for i, g in enumerate(GROUPS):
         if policy and g == "rs":
             continue        # the closed policy family is assigned to the global table
-        behs = run.replay_behaviours(g) if run.replay else gen(run, g, num, run.seed * 100 + i, steps, policy)
+        gnum = num * 3 if (policy and g == "addpath") else num     # the per-path policy cases are rarer
+        behs = run.replay_behaviours(g) if run.replay else gen(run, g, gnum, run.seed * 100 + i, steps, policy)
         if not behs:
             continue
         traces = run.execute("c01", "pkg/server", "^TestVerifC01$", behs, tag="speaker-" + g)
